@@ -45,6 +45,19 @@ var BlockedHook func(site int)
 //go:norace
 func Sim() bool { return Hook != nil }
 
+// AcquiredHook, if set, is told about every lock acquisition of instrumented code (the simulator notes where in a
+// task's execution its critical sections begin, and likes to preempt around those places).
+var AcquiredHook func(site int)
+
+// Acquired is called right after a TryLock loop succeeded.
+//
+//go:norace
+func Acquired(site int) {
+	if h := AcquiredHook; h != nil {
+		h(site)
+	}
+}
+
 // OnceDo runs a statement of the form "X.Do(f)" (do = func() { X.Do(f) }, p = &X). If X is a sync.Once and a
 // simulation is running, a task that arrives while another (parked) task is inside f does not block in the Once's
 // mutex while it holds the baton: it calls Blocked until the first caller is through. The table is plain memory on
@@ -245,7 +258,7 @@ func main() {
 			pos := fset.Position(s.Pos())
 			if try, recv := lockStmt(s); *locks && try != "" {
 				x := string(src[fset.Position(recv.Pos()).Offset:fset.Position(recv.End()).Offset])
-				ins = append(ins, insertion{off: pos.Offset, text: fmt.Sprintf("simhook_.Yield(%d); if simhook_.Sim() { for !(%s).%s() { simhook_.Blocked(%d) } } else { ", siteID, x, try, siteID)})
+				ins = append(ins, insertion{off: pos.Offset, text: fmt.Sprintf("simhook_.Yield(%d); if simhook_.Sim() { for !(%s).%s() { simhook_.Blocked(%d) }; simhook_.Acquired(%d) } else { ", siteID, x, try, siteID, siteID)})
 				ins = append(ins, insertion{off: fset.Position(s.End()).Offset, text: " }"})
 				sites = append(sites, fmt.Sprintf("%d\t%s:%d", siteID, rel, pos.Line))
 				siteID++
